@@ -89,31 +89,33 @@ type Spec struct {
 	PreLink bool `json:"pre_link,omitempty"`
 	// PreSkip - with PreLink: the first task of the preliminary chain returns ErrorSkipParents, so the rest of the chain is
 	// skipped in the preliminary Run - and must stay that way in the Run that follows
-	PreSkip       bool `json:"pre_skip,omitempty"`
-	PreMaxPar     int  `json:"pre_maxpar,omitempty"`
-	SerialMask    int  `json:"serial_mask,omitempty"`     // bit g set: graph g of a shared-task workload runs in serial mode
-	WrapSkip      bool `json:"wrap_skip,omitempty"`       // ErrorSkipParents is returned wrapped in another error (fmt.Errorf("...: %w", ...))
-	Percent       bool `json:"percent,omitempty"`         // graph name and task IDs contain a percent sign
-	TickerZero    bool `json:"ticker_zero,omitempty"`     // Graph.TickerDuration = 0 (no polling delay)
-	PreFail       bool `json:"pre_fail,omitempty"`        // one task of the preliminary run fails: the graph has recorded an error
-	Deadline      bool `json:"deadline,omitempty"`        // the context ends with DeadlineExceeded instead of Canceled (custom Context)
-	CtxErrs       bool `json:"ctx_errs,omitempty"`        // failing tasks return errors that wrap context.Canceled / DeadlineExceeded (their own timeouts)
-	Literal       bool `json:"literal,omitempty"`         // tasks are built as &dag.Task{ID, Fn} literals instead of dag.NewTask
-	ChunkBytes    int  `json:"chunk_bytes,omitempty"`     // filler bytes per output chunk (large outputs)
-	SortAt        int  `json:"sort_at,omitempty"`         // >0: DepthFirstSort is also called after that many construction calls
-	WriterFails   bool `json:"writer_fails,omitempty"`    // the output writer returns an error on every second write
-	WriterDead    bool `json:"writer_dead,omitempty"`     // with WriterFails: the writer accepts nothing at all (a closed file): (0, error) on every write
-	NGraphs       int  `json:"ngraphs,omitempty"`         // >1: several graphs over the same Tasks run concurrently (eager only)
-	ViaLookup     bool `json:"via_lookup,omitempty"`      // graphs 1.. get the shared tasks through Graph.Task(id) of graph 0 instead of the caller's pointers
-	AttemptErrs   bool `json:"attempt_errs,omitempty"`    // every attempt of a task returns its own error value (wrapping the task's sentinel): the reported entry must be the final attempt's
-	NestedErrs    bool `json:"nested_errs,omitempty"`     // some tasks fail with an error that wraps a *dag.Errors (the result of a nested Run), one of them with an empty list
-	RetriesOnlyG0 bool `json:"retries_only_g0,omitempty"` // shared-task workloads: TaskRetries calls are made on graph 0 only, the other graphs use the tasks without retries
-	Colon         bool `json:"colon,omitempty"`           // task IDs with colons chosen so that "<id>:<dependency id>" of two different edges is the same text
-	QuietMask     int  `json:"quiet_mask,omitempty"`      // buffered runs: tasks (bit i) that write nothing
-	Space         bool `json:"space,omitempty"`           // task IDs end in a blank (IDs are compared as written, lookups included)
-	Redefine      bool `json:"redefine,omitempty"`        // shared-task workloads: graphs 1.. first define every ID with a private Task object and, after the history, once more with the shared one
-	ValWriter     bool `json:"val_writer,omitempty"`      // the output writer is passed as a struct value with a slice field (not comparable, not hashable)
-	Nested        bool `json:"nested,omitempty"`          // buffered runs: the first attempt of task 0 runs a buffered graph of its own (three writing tasks) with the context it was given
+	PreSkip           bool `json:"pre_skip,omitempty"`
+	PreMaxPar         int  `json:"pre_maxpar,omitempty"`
+	SerialMask        int  `json:"serial_mask,omitempty"`          // bit g set: graph g of a shared-task workload runs in serial mode
+	WrapSkip          bool `json:"wrap_skip,omitempty"`            // ErrorSkipParents is returned wrapped in another error (fmt.Errorf("...: %w", ...))
+	Percent           bool `json:"percent,omitempty"`              // graph name and task IDs contain a percent sign
+	TickerZero        bool `json:"ticker_zero,omitempty"`          // Graph.TickerDuration = 0 (no polling delay)
+	PreFail           bool `json:"pre_fail,omitempty"`             // one task of the preliminary run fails: the graph has recorded an error
+	Deadline          bool `json:"deadline,omitempty"`             // the context ends with DeadlineExceeded instead of Canceled (custom Context)
+	CtxErrs           bool `json:"ctx_errs,omitempty"`             // failing tasks return errors that wrap context.Canceled / DeadlineExceeded (their own timeouts)
+	Literal           bool `json:"literal,omitempty"`              // tasks are built as &dag.Task{ID, Fn} literals instead of dag.NewTask
+	ChunkBytes        int  `json:"chunk_bytes,omitempty"`          // filler bytes per output chunk (large outputs)
+	SortAt            int  `json:"sort_at,omitempty"`              // >0: DepthFirstSort is also called after that many construction calls
+	WriterFails       bool `json:"writer_fails,omitempty"`         // the output writer returns an error on every second write
+	WriterDead        bool `json:"writer_dead,omitempty"`          // with WriterFails: the writer accepts nothing at all (a closed file): (0, error) on every write
+	NGraphs           int  `json:"ngraphs,omitempty"`              // >1: several graphs over the same Tasks run concurrently (eager only)
+	ViaLookup         bool `json:"via_lookup,omitempty"`           // graphs 1.. get the shared tasks through Graph.Task(id) of graph 0 instead of the caller's pointers
+	AttemptErrs       bool `json:"attempt_errs,omitempty"`         // every attempt of a task returns its own error value (wrapping the task's sentinel): the reported entry must be the final attempt's
+	NestedErrs        bool `json:"nested_errs,omitempty"`          // some tasks fail with an error that wraps a *dag.Errors (the result of a nested Run), one of them with an empty list
+	RetriesOnlyG0     bool `json:"retries_only_g0,omitempty"`      // shared-task workloads: TaskRetries calls are made on graph 0 only, the other graphs use the tasks without retries
+	Colon             bool `json:"colon,omitempty"`                // task IDs with colons chosen so that "<id>:<dependency id>" of two different edges is the same text
+	QuietMask         int  `json:"quiet_mask,omitempty"`           // buffered runs: tasks (bit i) that write nothing
+	Space             bool `json:"space,omitempty"`                // task IDs end in a blank (IDs are compared as written, lookups included)
+	Redefine          bool `json:"redefine,omitempty"`             // shared-task workloads: graphs 1.. first define every ID with a private Task object and, after the history, once more with the shared one
+	ValWriter         bool `json:"val_writer,omitempty"`           // the output writer is passed as a struct value with a slice field (not comparable, not hashable)
+	NestedPlain       bool `json:"nested_plain,omitempty"`         // with Nested: the inner graph does not buffer: its tasks inherit the outer task's buffer through the context
+	HoldAfterCancelMS int  `json:"hold_after_cancel_ms,omitempty"` // the controller waits this long after the cancellation before it releases the next in-flight attempt
+	Nested            bool `json:"nested,omitempty"`               // buffered runs: the first attempt of task 0 runs a buffered graph of its own (three writing tasks) with the context it was given
 }
 
 // Model - what the history is supposed to mean (from the documented API semantics).
@@ -289,7 +291,10 @@ type Trace struct {
 	ParkedAtReturn         int          `json:"parked_at_return,omitempty"`
 	Output                 string       `json:"output,omitempty"`
 	OutputWrites           int          `json:"output_writes,omitempty"`
-	OutputRead             bool         `json:"output_read,omitempty"`  // every Run returned: the plain writer was read
+	OutputRead             bool         `json:"output_read,omitempty"` // every Run returned: the plain writer was read
+	SecondRun              bool         `json:"second_run,omitempty"`  // a cyclic graph was run a second time
+	SecondIsCycle          bool         `json:"second_is_cycle,omitempty"`
+	SecondErr              string       `json:"second_err,omitempty"`
 	PreExec                []int        `json:"pre_exec,omitempty"`     // executions of the preliminary tasks over both Runs
 	PreSortBad             string       `json:"pre_sort_bad,omitempty"` // Spec.PreLink: DepthFirstSort after the preliminary Run was not dependencies-first
 	InnerOutput            string       `json:"inner_output,omitempty"` // Spec.Nested: what the inner graph's own writer received
@@ -468,6 +473,9 @@ type runner struct {
 	inner          *plainWriter
 	preSortBad     string
 	preExec        []int32
+	secondRun      bool
+	secondIsCycle  bool
+	secondErr      string
 	innerRan       bool
 	innerErr       error
 	out            *plainWriter
@@ -498,7 +506,11 @@ func (r *runner) runInner(ctx context.Context) {
 	ig := dag.NewGraph("inner7")
 	ig.TickerDuration = 20 * time.Microsecond
 	ig.UseColor = false
-	ig.SetOutputBuffer(r.inner)
+	if !r.spec.NestedPlain {
+		ig.SetOutputBuffer(r.inner)
+	} else {
+		ig.SetSerial() // the inner tasks share the outer task's buffer: one at a time, ordered by happens-before
+	}
 	for k := 0; k < 3; k++ {
 		k := k
 		ig.AddTask(dag.NewTask(fmt.Sprintf("i%d", k), func(c context.Context, _ *getoptions.GetOpt, _ []string) error {
@@ -786,7 +798,7 @@ func Execute(spec *Spec) *Trace {
 		case spec.CtxErrs && i%3 == 2:
 			r.sentinels = append(r.sentinels, fmt.Errorf("verif sentinel error of task t%d (own cancel): %w", i, context.Canceled))
 		case spec.NestedErrs && i%4 == 3:
-			inner := &dag.Errors{Msg: fmt.Sprintf("inner graph of t%d", i), Errors: []error{errors.New("inner task a failed"), errors.New("inner task b failed")}}
+			inner := &dag.Errors{Msg: fmt.Sprintf("inner graph of t%d", i), Errors: []error{errors.New("inner task a failed"), fmt.Errorf("Task inner:b error: %w", dag.ErrorTaskSkipped)}}
 			if i%8 == 7 {
 				inner.Errors = nil // a nested Run that recorded nothing is still a non-nil error value
 			}
@@ -883,6 +895,15 @@ func Execute(spec *Spec) *Trace {
 		r.log(Event{Kind: EvRunStart, Graph: gi})
 		go func(gi int, g *dag.Graph) {
 			err := g.Run(gctx, nil, nil)
+			if err != nil && r.model.Cycle && !r.model.DefErr && ng == 1 {
+				// a rejected graph is rejected the same way when Run is called again
+				err2 := g.Run(gctx, nil, nil)
+				r.secondRun = true
+				r.secondIsCycle = errors.Is(err2, dag.ErrorGraphHasCycle)
+				if err2 != nil {
+					r.secondErr = err2.Error()
+				}
+			}
 			r.log(Event{Kind: EvRunReturn, Graph: gi})
 			resCh <- runRes{gi, err}
 		}(gi, graphs[gi])
@@ -1029,6 +1050,7 @@ func Execute(spec *Spec) *Trace {
 		var spinSig [4]uint64
 		var spinStart uint64
 		spinForce := false
+		heldAfterCancel := false
 		cancelSeen := false
 	CONTROL:
 		for returned < ng {
@@ -1147,6 +1169,18 @@ func Execute(spec *Spec) *Trace {
 							chosen = append(chosen, i)
 						}
 						tr.Choices = append(tr.Choices, [2]int{-1, nParked})
+					}
+					if spec.HoldAfterCancelMS > 0 && tr.CancelSeq > 0 && !heldAfterCancel {
+						// in-flight tasks may take as long as they like after a cancellation: Run waits for them
+						heldAfterCancel = true
+						time.Sleep(time.Duration(spec.HoldAfterCancelMS) * time.Millisecond)
+						select {
+						case rr := <-resCh:
+							collect(rr)
+							continue
+						default:
+						}
+						deadline = time.Now().Add(watchdog)
 					}
 					r.mu.Lock()
 					var rel []*parkedTask
@@ -1299,6 +1333,7 @@ func Execute(spec *Spec) *Trace {
 		for i := range r.preExec {
 			tr.PreExec = append(tr.PreExec, int(atomic.LoadInt32(&r.preExec[i])))
 		}
+		tr.SecondRun, tr.SecondIsCycle, tr.SecondErr = r.secondRun, r.secondIsCycle, r.secondErr
 		if r.innerRan {
 			tr.InnerRan = true
 			tr.InnerOutput = string(r.inner.buf)
